@@ -168,7 +168,9 @@ func vfC05(w *vfWorld) {
 			}
 		case "empty":
 			m.Claims["nonce"] = ""
-		case "absent":
+		case "absent", "absent-but-in-profile":
+			// (the second: the ID token carries no nonce, the unsigned profile document mirrors the one of the authorization request -
+			// only the signed token can bind the answer to this login)
 			delete(m.Claims, "nonce")
 		case "unhashed-looking":
 			m.Claims["nonce"] = vfB64([]byte("0123456789abcdef0123456789abcdef"))
@@ -257,7 +259,12 @@ func vfC05(w *vfWorld) {
 		logins = append(logins, l)
 		return l
 	}
-	behaviours := []string{"honest", "other-login", "empty", "absent", "unhashed-looking", "raw-of-this-login", "replayed-id-token", "hash-of-state-nonce"}
+	behaviours := []string{"honest", "other-login", "empty", "absent", "unhashed-looking", "raw-of-this-login", "replayed-id-token", "hash-of-state-nonce", "absent-but-in-profile"}
+	idp.Userinfo = func(c *vfIdpCall, claims map[string]interface{}) {
+		if behaviour == "absent-but-in-profile" && curLogin != nil {
+			claims["nonce"] = curLogin.lg.AuthReq.Nonce
+		}
+	}
 	n := 2 + t.Choice("c05.logins", 4)
 	cs.Logins = n
 	// overlapping: start some logins up front, complete in tape order, starting more as we go
@@ -274,7 +281,7 @@ func vfC05(w *vfWorld) {
 		k := t.Choice("c05.which", len(pending))
 		l := pending[k]
 		pending = append(pending[:k], pending[k+1:]...)
-		behaviour = behaviours[t.Weighted("c05.beh", 4, 2, 1, 1, 1, 1, 2, 1)]
+		behaviour = behaviours[t.Weighted("c05.beh", 4, 2, 1, 1, 1, 1, 2, 1, 1)]
 		if behaviour == "other-login" && len(logins) < 2 {
 			behaviour = "honest"
 		}
